@@ -15,6 +15,7 @@ FIXES = {  # commit -> (property, expected rule prefix, what)
     "f36f655": ("C12", "R12.", "CommitmentProof.Validate accepts nil subtree root proofs"),
     "93fd4c5": ("C20", "R20.", "retry loop ignores the service context"),
     "f827021": ("C07", "R7.", "file descriptors leaked on bad header / after size validation"),
+    "80c6e24": ("C10", "R10.6", "hasher does not bind the outer multihash code: a sample block fulfils a row request"),
     "ce6f01d": ("C17", "R17.8", "stale cool-down entry re-activates a re-added peer ahead of its second cool-down"),
 }
 SEED_EXPECT = {
@@ -29,7 +30,7 @@ SEED_EXPECT = {
     "C07-3": "R7.7", "C07-4": "R7.6", "C08-3": "R8.7", "C08-4": "R8.8", "C04-3": "R4.1", "C04-4": "R4.3", "C18-3": "R18.3",
     "C12-3": "R12.2", "C12-4": "R12.6", "C02-3": "R2.5", "C02-4": "R2.4", "C09-3": "R9.1", "C01-3": "R1.4", "C01-4": "R1.2",
     "C06-3": "R6.7", "C06-4": "R6.7", "C13-3": "R13.3", "C13-4": "R13.2", "C20-3": "R20.5", "C20-4": "R20.2", "C17-3": "R17.5", "C17-4": "R17.",
-    "C19-3": "R19.2d", "C19-4": "R19.3a",
+    "C10-3": "R10.7", "C19-3": "R19.2d", "C19-4": "R19.3a",
     "C03-3": "R3.6", "C03-4": "R3.6", "C11-1": "R11.7", "C11-2": "R11.6",
 }
 byprop = {}
